@@ -11,4 +11,7 @@ CONSTANTS
   MidCrash = TRUE
   Timeouts = TRUE
   MaxWriteFaults = 2
+  MaxReadFaults = 0
+  ReadKinds = {}
+  ReadFix = FALSE
 INVARIANT ContainerOK
